@@ -46,6 +46,194 @@ func writeDocs(rp *Replay) {
 // stage2Observe compiles and runs what pass A left in rp.Dir; returns false if there was
 // nothing to do.
 func stage2Observe(rp *Replay) (bool, string) {
+	did := stage2ObserveMany([]*Replay{rp})
+	return did[0], ""
+}
+
+// stage2ObserveMany compiles and runs what pass A left in the replay directories, all in
+// one scratch module (one `go build` per emitted package, one `go run` for all requests).
+func stage2ObserveMany(rps []*Replay) []bool {
+	did := make([]bool, len(rps))
+	any := false
+	for i, rp := range rps {
+		srcs, _ := filepath.Glob(filepath.Join(rp.Dir, "s2_*.go.txt"))
+		did[i] = len(srcs) > 0
+		any = any || did[i]
+	}
+	if !any {
+		return did
+	}
+	scratch, err := os.MkdirTemp("", "gosym-s2-")
+	if err != nil {
+		return make([]bool, len(rps))
+	}
+	defer os.RemoveAll(scratch)
+	gomod := "module zzreplay\n\ngo 1.23\n\nrequire (\n\tgithub.com/atombender/go-jsonschema v0.0.0\n\tgithub.com/go-viper/mapstructure/v2 v2.1.0\n\tgopkg.in/yaml.v3 v3.0.1\n)\n\nreplace github.com/atombender/go-jsonschema => /repo\n"
+	_ = os.WriteFile(filepath.Join(scratch, "go.mod"), []byte(gomod), 0o644)
+	if b, err := os.ReadFile(filepath.Join(engineDir, "go.sum")); err == nil {
+		_ = os.WriteFile(filepath.Join(scratch, "go.sum"), b, 0o644)
+	}
+	type s2 struct {
+		ri, h   int
+		imp     string
+		alias   string
+		ok      bool
+	}
+	type req struct {
+		RI, K, H, Doc int
+		Typ, Format   string
+	}
+	var pkgs []*s2
+	var rs []req
+	s2ok := make([]map[string]bool, len(rps))
+	s2err := make([]map[string]string, len(rps))
+	logs := make([]bytes.Buffer, len(rps))
+	explicit := false
+	for i, rp := range rps {
+		s2ok[i], s2err[i] = map[string]bool{}, map[string]string{}
+		if !did[i] {
+			continue
+		}
+		srcs, _ := filepath.Glob(filepath.Join(rp.Dir, "s2_*.go.txt"))
+		sort.Strings(srcs)
+		for _, f := range srcs {
+			var h int
+			fmt.Sscanf(filepath.Base(f), "s2_%d.go.txt", &h)
+			src, _ := os.ReadFile(f)
+			imp := fmt.Sprintf("zzreplay/r%dg%d", i, h)
+			if pb, err := os.ReadFile(filepath.Join(rp.Dir, fmt.Sprintf("s2_%d.path", h))); err == nil && strings.HasPrefix(string(pb), "zzreplay/") {
+				imp = string(pb)
+				explicit = true
+			}
+			dir := filepath.Join(scratch, strings.TrimPrefix(imp, "zzreplay/"))
+			_ = os.MkdirAll(dir, 0o755)
+			_ = os.WriteFile(filepath.Join(dir, fmt.Sprintf("gen_%d.go", h)), src, 0o644)
+			pkgs = append(pkgs, &s2{ri: i, h: h, imp: imp, alias: fmt.Sprintf("r%dg%d", i, h)})
+		}
+	}
+	if explicit && len(rps) > 1 {
+		// explicit import paths cannot be namespaced per replay: process one by one
+		for i, rp := range rps {
+			if did[i] {
+				did[i], _ = stage2Observe(rp)
+			}
+		}
+		return did
+	}
+	for _, p := range pkgs {
+		cmd := exec.Command("go", "build", p.imp)
+		cmd.Dir = scratch
+		cmd.Env = goEnv()
+		out, err := cmd.CombinedOutput()
+		p.ok = err == nil
+		s2ok[p.ri][strconv.Itoa(p.h)] = p.ok
+		if !p.ok {
+			s2err[p.ri][strconv.Itoa(p.h)] = strings.TrimSpace(strings.ReplaceAll(string(out), p.alias, "gen"+strconv.Itoa(p.h)))
+			fmt.Fprintf(&logs[p.ri], "package %d does not build:\n%s\n", p.h, out)
+		}
+	}
+	used := map[string]bool{}
+	for i, rp := range rps {
+		if !did[i] {
+			continue
+		}
+		reqs, _ := filepath.Glob(filepath.Join(rp.Dir, "unm_*.json"))
+		sort.Strings(reqs)
+		for _, f := range reqs {
+			r := req{RI: i}
+			fmt.Sscanf(filepath.Base(f), "unm_%d.json", &r.K)
+			b, _ := os.ReadFile(f)
+			var m struct {
+				H      int    `json:"h"`
+				Typ    string `json:"typ"`
+				Format string `json:"format"`
+				Doc    int    `json:"doc"`
+			}
+			_ = json.Unmarshal(b, &m)
+			r.H, r.Typ, r.Format, r.Doc = m.H, m.Typ, m.Format, m.Doc
+			for _, p := range pkgs {
+				if p.ri == i && p.h == r.H && p.ok {
+					rs = append(rs, r)
+					used[p.alias] = true
+				}
+			}
+		}
+	}
+	var mainSrc bytes.Buffer
+	mainSrc.WriteString("package main\n\nimport (\n\t\"encoding/json\"\n\t\"fmt\"\n\t\"os\"\n\tyaml \"gopkg.in/yaml.v3\"\n")
+	for _, p := range pkgs {
+		if used[p.alias] {
+			fmt.Fprintf(&mainSrc, "\t%s %q\n", p.alias, p.imp)
+		}
+	}
+	mainSrc.WriteString(")\n\nvar _ = yaml.Unmarshal\nvar _ = json.Unmarshal\n\nfunc run(ri, k int, f func() (error, string)) {\n\tstatus, msg, val := 0, \"\", \"\"\n\tfunc() {\n\t\tdefer func() {\n\t\t\tif p := recover(); p != nil {\n\t\t\t\tstatus, msg = 2, fmt.Sprint(p)\n\t\t\t}\n\t\t}()\n\t\terr, v := f()\n\t\tval = v\n\t\tif err != nil {\n\t\t\tstatus, msg = 1, err.Error()\n\t\t}\n\t}()\n\tfmt.Printf(\"ZZS2 r=%d k=%d status=%d msg=%q value=%s\\n\", ri, k, status, msg, val)\n}\n\nfunc main() {\n")
+	for _, r := range rs {
+		docFile := filepath.Join(rps[r.RI].Dir, fmt.Sprintf("doc_%d.json", r.Doc))
+		dec := "json.Unmarshal(doc, &v)"
+		if r.Format == "yaml" {
+			dec = "yaml.Unmarshal(doc, &v)"
+		}
+		fmt.Fprintf(&mainSrc, "\t{\n\t\tdoc, _ := os.ReadFile(%q)\n\t\trun(%d, %d, func() (error, string) {\n\t\t\tvar v r%dg%d.%s\n\t\t\terr := %s\n\t\t\tb, _ := json.Marshal(&v)\n\t\t\treturn err, string(b)\n\t\t})\n\t}\n", docFile, r.RI, r.K, r.RI, r.H, r.Typ, dec)
+	}
+	mainSrc.WriteString("}\n")
+	_ = os.WriteFile(filepath.Join(scratch, "main.go"), mainSrc.Bytes(), 0o644)
+	status := make([]map[string]int, len(rps))
+	msgs := make([]map[string]string, len(rps))
+	for i := range rps {
+		status[i], msgs[i] = map[string]int{}, map[string]string{}
+	}
+	if len(rs) > 0 {
+		cmd := exec.Command("go", "run", ".")
+		cmd.Dir = scratch
+		cmd.Env = goEnv()
+		out, err := cmd.CombinedOutput()
+		for _, line := range strings.Split(string(out), "\n") {
+			if !strings.HasPrefix(line, "ZZS2 ") {
+				if strings.TrimSpace(line) != "" {
+					for i := range logs {
+						if did[i] {
+							logs[i].WriteString(line + "\n")
+						}
+					}
+				}
+				continue
+			}
+			var ri, k, st int
+			if _, err := fmt.Sscanf(line, "ZZS2 r=%d k=%d status=%d", &ri, &k, &st); err == nil && ri < len(rps) {
+				logs[ri].WriteString(line + "\n")
+				status[ri][strconv.Itoa(k)] = st
+				if a := strings.Index(line, " msg="); a >= 0 {
+					rest := line[a+5:]
+					if j := strings.LastIndex(rest, " value="); j >= 0 {
+						if s, err := strconv.Unquote(rest[:j]); err == nil {
+							msgs[ri][strconv.Itoa(k)] = s
+						}
+					}
+				}
+			}
+		}
+		if err != nil {
+			for i := range logs {
+				if did[i] {
+					fmt.Fprintf(&logs[i], "\n(go run: %v)\n", err)
+				}
+			}
+		}
+	}
+	for i, rp := range rps {
+		if !did[i] {
+			continue
+		}
+		obs := map[string]interface{}{"s2ok": s2ok[i], "s2err": s2err[i], "status": status[i], "msg": msgs[i]}
+		ob, _ := json.MarshalIndent(obs, "", " ")
+		_ = os.WriteFile(filepath.Join(rp.Dir, "observed.json"), ob, 0o644)
+		_ = os.WriteFile(filepath.Join(rp.Dir, "stage2_output.txt"), logs[i].Bytes(), 0o644)
+		_ = os.WriteFile(filepath.Join(rp.Dir, "stage2_main.go.txt"), mainSrc.Bytes(), 0o644)
+	}
+	return did
+}
+
+func stage2ObserveOld(rp *Replay) (bool, string) {
 	srcs, _ := filepath.Glob(filepath.Join(rp.Dir, "s2_*.go.txt"))
 	if len(srcs) == 0 {
 		return false, ""
@@ -187,6 +375,52 @@ func stage2Observe(rp *Replay) (bool, string) {
 	_ = os.WriteFile(filepath.Join(rp.Dir, "stage2_output.txt"), log.Bytes(), 0o644)
 	_ = os.WriteFile(filepath.Join(rp.Dir, "stage2_main.go.txt"), mainSrc.Bytes(), 0o644)
 	return true, log.String()
+}
+
+// runReplaysFull: batched pass A, stage-2 observation and pass A' for replays of harnesses of
+// one package.
+func runReplaysFull(rps []*Replay) []ReplayResult {
+	for _, rp := range rps {
+		_ = os.Remove(filepath.Join(rp.Dir, "observed.json"))
+		for _, pat := range []string{"s2_*", "unm_*"} {
+			old, _ := filepath.Glob(filepath.Join(rp.Dir, pat))
+			for _, f := range old {
+				_ = os.Remove(f)
+			}
+		}
+		writeDocs(rp)
+	}
+	resA := runReplays(rps)
+	did := stage2ObserveMany(rps)
+	any := false
+	for _, d := range did {
+		any = any || d
+	}
+	if !any {
+		return resA
+	}
+	resB := runReplays(rps)
+	for i, rp := range rps {
+		if !did[i] {
+			resB[i] = resA[i]
+			continue
+		}
+		if ob, err := os.ReadFile(filepath.Join(rp.Dir, "observed.json")); err == nil {
+			var o struct {
+				S2OK map[string]bool `json:"s2ok"`
+			}
+			if json.Unmarshal(ob, &o) == nil {
+				for _, v := range o.S2OK {
+					if !v {
+						resB[i].CompileFailed = true
+					}
+				}
+			}
+		}
+		resB[i].Output = "--- pass A (recorded outcomes) ---\n" + resA[i].Output + "\n--- pass A' (observed outcomes of the real generated code) ---\n" + resB[i].Output
+		_ = os.WriteFile(filepath.Join(rp.Dir, "output.txt"), []byte(resB[i].Output+"\n"+resB[i].Detail+"\n"), 0o644)
+	}
+	return resB
 }
 
 // runReplayFull: pass A, stage-2 observation, pass A'.
